@@ -24,8 +24,9 @@ KNOWN_FILE = os.path.join(VERIF, "known_findings.json")
 PY = sys.executable
 
 
-class RunTimeout(HarnessError):
-    pass
+class RunTimeout(BaseException):
+    """Per-run wall cap exceeded.  Deliberately NOT an Exception: checks wrap calls into the code under
+    test in `except Exception` and must never mistake a slow machine for a misbehaving library."""
 
 
 def load_check(cid: str):
@@ -107,6 +108,10 @@ def _worker_batch(cid, root_seed, tier, indices, run_cap_s, want_samples):
     for idx in indices:
         try:
             case, res = _one_run(mod, cid, root_seed, tier, idx, run_cap_s)
+        except RunTimeout:
+            # counted, not a violation and not (by itself) an error: see the threshold in run_check
+            out["timeouts"] = out.get("timeouts", 0) + 1
+            continue
         except BaseException as e:  # noqa: BLE001
             if isinstance(e, KeyboardInterrupt):
                 raise
@@ -328,6 +333,7 @@ def run_check(cid: str, tier: str, seed: int, runs=None, wall=None, workers=None
                 if os.environ.get("VERIF_DEBUG"):
                     print(f"[debug] t={time.monotonic() - t0:.1f} batch n={out['n']} busy={out.get('busy_s', 0):.1f} pid={out.get('pid')}", file=sys.stderr)
                 agg["n"] += out["n"]
+                agg["timeouts"] = agg.get("timeouts", 0) + out.get("timeouts", 0)
                 agg["sim_time"] += out["sim_time"]
                 agg["busy_s"] = agg.get("busy_s", 0.0) + out.get("busy_s", 0.0)
                 agg["cpu_s"] = agg.get("cpu_s", 0.0) + out.get("cpu_s", 0.0)
@@ -464,6 +470,7 @@ def run_check(cid: str, tier: str, seed: int, runs=None, wall=None, workers=None
                                      "probe_reproduced": probes.get(k["id"]),
                                      "what": k["what"]} for k in known},
         "harness_errors": len(agg["errors"]),
+        "runs_abandoned_at_wall_cap": agg.get("timeouts", 0),
     }
     ev = {
         "property_id": cid,
@@ -502,6 +509,10 @@ def run_check(cid: str, tier: str, seed: int, runs=None, wall=None, workers=None
     if reported:
         return 1
     if agg["errors"]:
+        return 2
+    if agg.get("timeouts", 0) > max(3, agg["n"] // 50):
+        print(f"HARNESS-ERROR property={cid}: {agg['timeouts']} runs hit the per-run wall cap "
+              f"({run_cap_s}s): hang or hopelessly overloaded machine", file=sys.stderr)
         return 2
     if agg["n"] == 0:
         print(f"HARNESS-ERROR property={cid}: nothing was explored", file=sys.stderr)
